@@ -75,6 +75,7 @@ structure SymFn where
   fnName : String
   expr : Fn           -- the sympy expression over the model's names
   args : List Name
+  src : Nat           -- ghost: identity of the function object the expression was translated from
 deriving Inhabited
 
 inductive SymVal where
@@ -98,7 +99,7 @@ deriving Inhabited
 def symFn (bad : List String) (c : NContent) (k : Name) (u : Use) : Except Err SymFn :=
   let f := c.pyfn u.fid
   if bad.contains f.name then .error (.valueError s!"Unable to parse fn for '{k}'")
-  else pure { fnName := f.name, expr := { args := u.args, fn := f.fn }, args := u.args }
+  else pure { fnName := f.name, expr := { args := u.args, fn := f.fn }, args := u.args, src := u.fid }
 
 def symVal (bad : List String) (c : NContent) (k : Name) : NVal → Except Err SymVal
   | .plain v => pure (.num v)
@@ -124,12 +125,14 @@ def toSymbolicRepr (bad : List String) (c : NContent) : Except Err SymRepr := do
 structure Def where
   params : List Name
   body : Fn
+  src : Nat           -- ghost, see `SymFn.src`
 deriving Inhabited
 
 /-- a function reference in a builder call: `fn=<key>, args=[…]` -/
 structure Ref where
   key : String
   args : List Name
+  src : Nat           -- ghost: the function object the component was built with
 deriving Repr, DecidableEq, Inhabited
 
 inductive BVal where
@@ -152,14 +155,14 @@ deriving Inhabited
 abbrev Fns := List (String × Def)
 
 def Fns.put (fs : Fns) (key : String) (f : SymFn) : Fns :=
-  omInsert fs key { params := f.args, body := f.expr }
+  omInsert fs key { params := f.args, body := f.expr, src := f.src }
 
 /-- `_codegen_variable` / `_codegen_parameter` -/
 def genInit (fs : Fns) : SymVal → Fns × BVal
   | .num v => (fs, .num v)
   | .fn f =>
     let key := "init_" ++ f.fnName
-    (fs.put key f, .ref { key, args := f.args })
+    (fs.put key f, .ref { key, args := f.args, src := f.src })
 
 def genInits (mk : Name → BVal → Call) : List (Name × SymVal) → Fns → Fns × List Call
   | [], fs => (fs, [])
@@ -172,7 +175,7 @@ def genDerived : List (Name × SymFn) → Fns → Fns × List Call
   | [], fs => (fs, [])
   | (k, f) :: rest, fs =>
     let (fs2, cs) := genDerived rest (fs.put f.fnName f)
-    (fs2, Call.addDerived k { key := f.fnName, args := f.args } :: cs)
+    (fs2, Call.addDerived k { key := f.fnName, args := f.args, src := f.src } :: cs)
 
 def genStoich (rxn : Name) : List (Name × SymVal) → Fns → Fns × List (Name × BVal)
   | [], fs => (fs, [])
@@ -182,7 +185,7 @@ def genStoich (rxn : Name) : List (Name × SymVal) → Fns → Fns × List (Name
   | (v, .fn f) :: rest, fs =>
     let key := rxn ++ "_stoich_" ++ f.fnName
     let (fs2, st) := genStoich rxn rest (fs.put key f)
-    (fs2, (v, BVal.ref { key, args := f.args }) :: st)
+    (fs2, (v, BVal.ref { key, args := f.args, src := f.src }) :: st)
 
 def genReactions : List (Name × SymRxn) → Fns → Fns × List Call
   | [], fs => (fs, [])
@@ -190,7 +193,7 @@ def genReactions : List (Name × SymRxn) → Fns → Fns × List Call
     let fs1 := fs.put r.fn.fnName r.fn
     let (fs2, st) := genStoich k r.stoich fs1
     let (fs3, cs) := genReactions rest fs2
-    (fs3, Call.addReaction k { key := r.fn.fnName, args := r.fn.args } st :: cs)
+    (fs3, Call.addReaction k { key := r.fn.fnName, args := r.fn.args, src := r.fn.src } st :: cs)
 
 def genMxlpy (s : SymRepr) : Program :=
   let (f1, vs) := genInits Call.addVariable s.variables []
@@ -252,6 +255,55 @@ def runCalls (defs : Fns) : List Call → Content → Except Err Content
 def runProgram (p : Program) : Except Err Content := do
   checkDefs p.defs
   runCalls p.defs p.build {}
+
+/-! ### the hypothesis of the partial theorem (decidable, a function of the input model) -/
+
+def BVal.refs : BVal → List Ref
+  | .num _ => []
+  | .ref r => [r]
+
+def Call.refs : Call → List Ref
+  | .addVariable _ v => v.refs
+  | .addParameter _ v => v.refs
+  | .addDerived _ r => [r]
+  | .addReaction _ r st => r :: st.flatMap fun vc => vc.2.refs
+
+/-- a builder reference finds the definition that was generated from the same function object -/
+def refOk (defs : Fns) (r : Ref) : Bool :=
+  match defs.lookup r.key with
+  | some d => d.src == r.src
+  | none => false
+
+/-- every emitted definition has distinct parameter names, and every reference resolves to its own function -/
+def Program.refsOk (p : Program) : Bool :=
+  (p.defs.all fun kd => !hasDup kd.2.params) && p.build.all fun call => call.refs.all (refOk p.defs)
+
+/-- excludes exactly F-C11-1 (a key — `__name__`, `init_<name>`, `<rxn>_stoich_<name>` — shared by two
+    different functions, where the overwritten one is still referenced) and F-C11-2 (a winning definition
+    with a repeated parameter) -/
+def refsResolve (c : NContent) : Bool :=
+  match toSymbolicRepr [] c with
+  | .ok s => (genMxlpy s).refsOk
+  | .error _ => false
+
+/-- pad / truncate an argument list to the function's arity -/
+def fit : Nat → List Rat → List Rat
+  | 0, _ => []
+  | n + 1, [] => 0 :: fit n []
+  | n + 1, v :: vs => v :: fit n vs
+
+def Use.all (c : NContent) : List Use :=
+  (c.vars.filterMap fun kv => match kv.2 with | .ia u => some u | .plain _ => none)
+  ++ (c.pars.filterMap fun kv => match kv.2 with | .ia u => some u | .plain _ => none)
+  ++ c.derived.map (·.2)
+  ++ c.rxns.flatMap fun kv => kv.2.rate :: kv.2.stoich.filterMap fun vc =>
+       match vc.2 with | .dyn u => some u | .num _ => none
+
+/-- representation invariant: the Lean function standing for a Python function of arity n looks at its
+    first n arguments only and reads a missing one as 0 (the core model applies a function to exactly
+    `args.length` values, so every Python function has such a representative; `FExpr.eval` is one) -/
+def Canonical (c : NContent) : Prop :=
+  ∀ u ∈ Use.all c, ∀ vs, (c.pyfn u.fid).fn vs = (c.pyfn u.fid).fn (fit u.args.length vs)
 
 /-- model → generated source → model -/
 def roundTrip (bad : List String) (c : NContent) : Except Err Content := do
